@@ -268,6 +268,8 @@ def run_atheris(target: str, runs: int, seed: int, corpus: str | None, max_len: 
         outf = os.path.join(tmp, "violations.txt")
         env = dict(os.environ, FUZZ_OUT=outf, PYTHONDONTWRITEBYTECODE="1", PYTHONHASHSEED="0")
         deps = os.path.join(VERIF_ROOT, ".deps")
+        if not os.path.isdir(deps):
+            deps = "/verif/.deps"
         env["PYTHONPATH"] = deps + os.pathsep + env.get("PYTHONPATH", "")
         try:
             p = subprocess.run([driver.PYTHON, script, f"-runs={runs}", f"-seed={seed}", f"-max_len={max_len}", "-print_final_stats=1", cdir],
